@@ -32,7 +32,7 @@ MANIFEST = {
         "before - max(before, end) with the stored makespan advanced to that "
         "maximum (hence non-positive and summing to minus the makespan given "
         "R12.a re-initialisation); the idle-time reward is the negated gap to "
-        "the previous operation of the chosen machine. Not decided: the sums "
+        "the previous operation of the chosen machine; rewards are stored without a narrowing cast. Not decided: the sums "
         "as numbers."
     ),
     "note": "Shapes outside the recognised idioms (difference of old/new makespan, negated start-minus-previous-end) are ANALYSIS-ERROR.",
